@@ -95,6 +95,16 @@ theorem input_symbol_qubit (ns : List Name) (hnd : ns.Nodup) (m : QMap) (j : Nat
       simp only [QMap.addQubits] at this
       rw [this]; simp [QMap.addQubit]; omega
 
+/-- the input bit names of a signature with distinct argument names are pairwise distinct, so
+(with `input_symbol_qubit`) the j-th argument bit – arguments in order, tuples depth-first –
+is on qubit j of the compiled circuit's qubit map -/
+theorem input_bits_on_qubits (sig : List (String × QTy)) (hnd : (sig.map (·.1)).Nodup) (j : Nat)
+    (hj : j < (inputSymbols (translateArguments sig)).length) :
+    (QMap.addQubits {} (inputSymbols (translateArguments sig))).get
+      (inputSymbols (translateArguments sig))[j] = some j := by
+  have := input_symbol_qubit _ (inputSymbols_nodup sig hnd) {} j hj
+  simpa using this
+
 /-! ## `encode_input` -/
 
 /-- layout of the string: reversed, it is the concatenation, argument after argument and
@@ -323,6 +333,9 @@ theorem c05_round_trip : C05_statement := by
 /-- a nested signature and value meeting the hypotheses -/
 example : WTs [.qint 2, .tuple [.bool, .qint 2]] [.int 1, .tuple [.bool true, .int 2]] := by
   simp [WTs, WT]
+
+/-- distinct argument names -/
+example : ([("a", QTy.qint 2), ("b", .tuple [.bool, .qint 2])].map (·.1)).Nodup := by decide
 
 /-- `Computes` is satisfiable: `CX 0 1` computes the identity of one bit on qubit 1 -/
 example : Computes [⟨.CX, [0, 1], .none, 0⟩] 2 1 [1] id := by
